@@ -3,8 +3,8 @@
 /verif/native/pyshim precedes /repo on PYTHONPATH.
 
 GUARD: None -> the buffer is handed over in place (fast path, like pybind11 does);
-       bytes -> every next_cut call copies the buffer into fresh memory followed by 64 bytes
-       of that repeating pattern, making "memory behind the data" a controlled input.
+       bytes -> every next_cut call copies the buffer into fresh memory between two runs of 64 bytes
+       of that repeating pattern, making "memory in front of and behind the data" a controlled input.
 """
 import ctypes, os
 _here = os.path.dirname(os.path.abspath(__file__))
@@ -59,8 +59,9 @@ class _gclmulchunker:
             data = bytes(buffer)
             return _lib.gc_next_cut(self._h, ctypes.cast(ctypes.c_char_p(data), ctypes.c_void_p), n, 1 if final else 0)
         pat = (GUARD * (GUARD_LEN // len(GUARD) + 1))[:GUARD_LEN]
-        mem = ctypes.create_string_buffer(bytes(buffer) + pat, n + GUARD_LEN)
-        return _lib.gc_next_cut(self._h, ctypes.addressof(mem), n, 1 if final else 0)
+        # the pattern lies in FRONT of the data as well as behind it
+        mem = ctypes.create_string_buffer(pat + bytes(buffer) + pat, n + 2 * GUARD_LEN)
+        return _lib.gc_next_cut(self._h, ctypes.addressof(mem) + GUARD_LEN, n, 1 if final else 0)
 
     def key_at(self, data, offset):
         mem = ctypes.create_string_buffer(bytes(data), len(data))
